@@ -655,6 +655,9 @@ func (e *Engine) execInstr(w *Worker, st *State, g *G, fr *Frame, instr ssa.Inst
 		e.set(fr, in, s.Base)
 		fr.PC++
 	case *ssa.Store:
+		if _, ok := e.get(st, g, fr, in.Addr).(SymBufElem); ok {
+			unsupported(in.Pos(), "store into a symbolic buffer")
+		}
 		p := e.get(st, g, fr, in.Addr).(Ptr)
 		if p.IsNil() {
 			e.rtPanic(st, g, fr, "invalid memory address or nil pointer dereference")
@@ -725,6 +728,7 @@ func (e *Engine) decide(w *Worker, st *State, kind, desc string, lits []*Term) i
 			models[i] = m
 			if m == nil {
 				unknown = true
+				st.undecided = true
 			}
 		}
 	}
@@ -817,6 +821,11 @@ func (e *Engine) enumerate(w *Worker, st *State, t *Term, max int) []uint64 {
 func (e *Engine) unop(w *Worker, st *State, g *G, fr *Frame, in *ssa.UnOp) {
 	switch in.Op {
 	case token.MUL: // load
+		if el, ok := e.get(st, g, fr, in.X).(SymBufElem); ok {
+			e.set(fr, in, el.Buf.read(el.Idx))
+			fr.PC++
+			return
+		}
 		p := e.get(st, g, fr, in.X).(Ptr)
 		if p.IsNil() {
 			e.rtPanic(st, g, fr, "invalid memory address or nil pointer dereference")
